@@ -482,3 +482,39 @@ def run_convboth(prog, ctx=None):
                    "" if ok else "%s: every converter call runs only when `%s` is non-null, but with `%s` null the function reaches `%s` (line %s): the query without destination is answered without converting" % (
                        f.qn, pids[vid], pids[vid], norm(show(quiet, f))[:40], quiet.get("l")))
     return res
+
+
+UNSIGNED_PARSERS = ("strtoul", "strtoull", "strtoumax", "strtouq")
+
+
+def run_unsignedtext(prog, ctx=None):
+    """UNSIGNEDTEXT: the C library's unsigned parsers (strtoul, strtoull, strtoumax) accept a minus sign and return the negated
+    value in unsigned arithmetic without any error ("-1" gives UINTMAX_MAX).  A function that delivers their result as the
+    number the text denotes looks at the text for a '-' itself: a comparison of a character with '-' or a search for it
+    (strchr/memchr with '-') in the function that makes the call."""
+    res = Result("UNSIGNEDTEXT")
+    n = 0
+    for f in sorted(prog.functions.values(), key=lambda f: (f.file, f.line, f.qn)):
+        if f.nocfg or f.file.startswith("examples/"):
+            continue
+        calls = [e for b, i, e in f.elements() if e.get("k") == "call" and (callee_name(e) or "") in UNSIGNED_PARSERS]
+        if not calls:
+            continue
+        looks = False
+        for b, i, nn in f.walk_all():
+            if nn.get("k") == "bin" and nn.get("op") in ("==", "!=") and (cval(nn["a"]) == 45 or cval(nn["b"]) == 45):
+                looks = True
+            if nn.get("k") == "call" and (callee_name(nn) or "") in ("strchr", "memchr", "strrchr", "index") and len(nn.get("args", [])) > 1 and cval(nn["args"][1]) == 45:
+                looks = True
+        for bid, blk in f.blocks.items():
+            lab = blk.label
+            if lab and lab.get("k") == "case" and lab.get("lo") == 45:
+                looks = True
+        for c in calls:
+            n += 1
+            res.ob("%s:%s" % (f.qn, norm(show(c, f))[:50]), looks, f, c.get("l", f.line),
+                   "" if looks else "%s: %s() parses the text as unsigned: it accepts a leading '-' and returns the negated value modulo 2^N without an error, "
+                                    "and nothing in this function looks for a '-': negative text is delivered as a large positive number" % (f.qn, callee_name(c)))
+    if not n:
+        raise Broken("UNSIGNEDTEXT: no call of an unsigned text parser found")
+    return res
